@@ -411,6 +411,9 @@ TraceNetRun ==
           <<"receive loop stopped answering", "responder", Ev.answered, "discovery", Ev.answered_discovery,
             "async responder", Ev.answered_async, "async discovery", Ev.answered_async_discovery>>)
   /\ Rule(l, "LockClean", Ev.usable # "no" /\ Ev.async_usable # "no", <<"store unusable after hostile traffic">>)
+  \* the one-shot resolver resolving a name while the hostile datagrams arrive: any outcome but a panic
+  /\ Rule(l, "LoopAlive", \A i \in 1 .. Len(Ev.resolver) : SubSeq(Ev.resolver[i], 1, 5) # "panic",
+          <<"one-shot resolver panicked", Ev.resolver>>)
 
 (* ApiTrace (C02, C08): an API history of the builder machine (Builder.tla) was replayed    *)
 (* on a real Packet; e.states[i] is the projection of the real packet after call i       *)
